@@ -265,7 +265,7 @@ module_stmt :
 
 
 belongs_to_def :
-    kywd_belongs_to token_string {
+    kywd_belongs_to string_value {
         l := yylex.(*lexer)
         l.stack.push(l.builder.BelongsTo(l.stack.peek(), $2))
         if chkErr(yylex, l.builder.LastErr) {
@@ -375,7 +375,7 @@ include_stmt :
     }
 
 revision_date_stmt :
-    kywd_revision_date token_string token_semi {
+    kywd_revision_date string_value token_semi {
         l := yylex.(*lexer)
         l.builder.SetRevisionDate(l.stack.peek(), $2)
     }
@@ -1507,9 +1507,9 @@ enum_stmt :
     }
 
 enum_def : 
-    kywd_enum token_string {
+    kywd_enum string_value {
         l := yylex.(*lexer)
-        l.stack.push(l.builder.Enum(l.stack.peek(), trimQuotes($2)))
+        l.stack.push(l.builder.Enum(l.stack.peek(), $2))
         if chkErr(yylex, l.builder.LastErr) {
             goto ret1
         }
@@ -1581,7 +1581,7 @@ yang_ver_stmt :
     }
 
 units_stmt :
-    kywd_units token_string statement_end {        
+    kywd_units string_value statement_end {        
         l := yylex.(*lexer)        
         l.builder.Units(l.stack.peek(), $2)
         if chkErr2(l, "units", $3) {
@@ -1613,7 +1613,7 @@ unknown_stmt :
     }
 
 yin_ext_def :
-    token_unknown token_string token_curly_open {
+    token_unknown string_value token_curly_open {
         l := yylex.(*lexer)
         $$ = l.builder.Extension($1, $2)
         if chkErr(yylex, l.builder.LastErr) {
